@@ -88,6 +88,43 @@ pub fn mark_floats(text: &[u8]) -> Vec<u8> {
 	out
 }
 
+/// Known finding K1's input class, recognised with serde_json alone (mirror of
+/// the model's `hasUnseparatedScalar`, tied to it by the `k1:` field of every
+/// `json` case): some top-level value that does not start with `[`, `{` or `"`
+/// is immediately followed by a byte that `peek_end_of_value` rejects.
+pub fn has_unseparated_scalar(bytes: &[u8]) -> bool {
+	let mut rest = bytes;
+	loop {
+		while let Some((b, tail)) = rest.split_first() {
+			if matches!(b, b' ' | b'\n' | b'\t' | b'\r') {
+				rest = tail;
+			} else {
+				break;
+			}
+		}
+		let Some(&first) = rest.first() else { return false };
+		// (`IgnoredAny` would skip the depth limit and the number range check,
+		// so a real value is parsed.)
+		let mut stream = serde_json::Deserializer::from_slice(rest).into_iter::<serde_json::Value>();
+		match stream.next() {
+			None => return false,
+			Some(Ok(_)) => {
+				rest = &rest[stream.byte_offset()..];
+			}
+			Some(Err(e)) => {
+				// The value itself parsed iff the offset moved past the start
+				// and the complaint is the end-of-value check.
+				let end = stream.byte_offset();
+				let self_delim = matches!(first, b'[' | b'{' | b'"');
+				return !self_delim && end > 0 && end < rest.len() && e.to_string().starts_with("trailing characters") && {
+					// Re-parse the prefix alone to make sure it is a complete value.
+					serde_json::from_slice::<serde_json::Value>(&rest[..end]).is_ok()
+				};
+			}
+		}
+	}
+}
+
 fn verdict(r: &Result<(), String>) -> String {
 	match r {
 		Ok(()) => "ok".to_string(),
@@ -111,13 +148,40 @@ pub fn json_case(out: &mut Out, input: &[u8], class: &str) {
 	let sn = s.output.iter().filter(|&&b| b == b'\n').count();
 	let rn = r.output.iter().filter(|&&b| b == b'\n').count();
 	let rlines = complete_lines(&r.output);
-	let answer = format!("slice:{sv}:{sn} reader:{rv}:{rn} out:{}", hex(&mark_floats(rlines)));
+	let k1 = has_unseparated_scalar(input);
+	let answer = format!("slice:{sv}:{sn} reader:{rv}:{rn} k1:{} out:{}", u8::from(k1), hex(&mark_floats(rlines)));
+	if k1 {
+		out.count("json.k1_class");
+	}
 	out.case("json", &hex(input), &answer, rv == "ok" && rn > 0);
 	out.count(&format!("json.class.{class}"));
 	out.count(&format!("json.reader.{rv}"));
 	out.count(&format!("json.slice.{sv}"));
 	if (sv == "ok") != (rv == "ok") || (sv == "ok" && sn != rn) {
 		out.count("json.slice_and_reader_differ");
+		// Implementation-level form of `json_slice_eq_reader_partial`: the two
+		// supply modes may only differ on K1's class.
+		if !k1 {
+			out.fail(
+				"json_slice_eq_reader_outside_k1",
+				"json-slice-vs-reader",
+				format!("input={} slice={} reader={}", hex(input), s.describe(), r.describe()),
+			);
+		}
+	}
+	out.eval("json_slice_eq_reader_outside_k1", &hex(input), !k1 && rv == "ok");
+	// The reader path does not depend on how the bytes arrive.
+	if input.len() < 400 {
+		let r1 = translate(input, &Supply::Reader(vec![1]), Some(Fmt::Json), Fmt::Json);
+		let r3 = translate(input, &Supply::Reader(vec![3, 1, 7]), Some(Fmt::Json), Fmt::Json);
+		out.eval("json_reader_schedule_independent", &hex(input), rv == "ok");
+		if r1 != r || r3 != r {
+			out.fail(
+				"json_reader_schedule_independent",
+				"json-reader-schedule",
+				format!("input={} all-at-once={} one-byte={} mixed={}", hex(input), r.describe(), r1.describe(), r3.describe()),
+			);
+		}
 	}
 	// Implementation-level: what the slice path wrote is the first `sn`
 	// documents of what the reader path wrote, byte for byte.
@@ -447,17 +511,17 @@ pub fn run(out: &mut Out, rng: &mut Rng, thorough: bool) {
 	out.count("json.exhaustive_every_byte_after_scalar_after_collection_in_string_in_array");
 
 	// ---- json: every sequence of ≤ N tokens
-	let max = if thorough { 4 } else { 3 };
+	let max = 4;
 	sequences(TOKENS, max, &mut |s| json_case(out, s, "token_sequence"));
 	out.count(&format!("json.exhaustive_token_sequences_up_to_{max}_over_{}_tokens", TOKENS.len()));
-	if !thorough {
-		// A sample of the 4-token sequences.
-		for _ in 0..40000 {
+	if thorough {
+		// A sample of the 5- and 6-token sequences.
+		for _ in 0..300000 {
 			let mut s = vec![];
-			for _ in 0..4 {
+			for _ in 0..rng.range(5, 6) {
 				s.extend_from_slice(*rng.pick::<&[u8]>(TOKENS));
 			}
-			json_case(out, &s, "token_sequence_4_sampled");
+			json_case(out, &s, "token_sequence_5_6_sampled");
 		}
 	}
 
